@@ -317,6 +317,8 @@ class CounterToken(Token, FileSystemEventHandler):
         return "token[{}]".format(self.name)
 
     def on_deleted(self, event):
+        if _verif.ACTIVE:
+            _verif.pause("evt.deleted")
         logger.debug(
             "Deleted path notification %s [watched %s]",
             event.src_path,
